@@ -96,7 +96,13 @@ impl SdJwtVc {
     let metadata_url = {
       let origin = self.claims().iss.origin().ascii_serialization();
       let path = self.claims().iss.path();
-      format!("{origin}{WELL_KNOWN_VC_ISSUER}{path}").parse().unwrap()
+      format!("{origin}{WELL_KNOWN_VC_ISSUER}{path}")
+        .parse::<Url>()
+        .map_err(|_| Error::InvalidClaimValue {
+          name: "iss",
+          expected: "URL with a host",
+          found: Value::String(self.claims().iss.to_string()),
+        })?
     };
     match resolver.resolve(&metadata_url).await {
       Err(ResolverErr::NotFound(_)) => Ok(None),
